@@ -773,15 +773,16 @@ class H2Connection:
         stream = self._get_or_create_stream(
             stream_id, AllowedStreamIDs(self.config.client_side)
         )
-        frames = stream.send_headers(
-            headers, self.encoder, end_stream
-        )
-
         # We may need to send priority information.
         priority_present = (
             (priority_weight is not None) or
             (priority_depends_on is not None) or
             (priority_exclusive is not None)
+        )
+
+        frames = stream.send_headers(
+            headers, self.encoder, end_stream,
+            priority_present=priority_present
         )
 
         if priority_present:
